@@ -157,6 +157,7 @@ func (f *Frame) exec(in ssa.Instruction, at string, st *State) {
 		f.rets = append(f.rets, retInfo{cond: at, vals: vals, st: st.clone()})
 		if f.top {
 			f.atReturn(x, at, vals, st)
+			f.chanAtReturn(x, at, st)
 		}
 	case *ssa.Panic:
 		f.atPanic(x, at, st)
@@ -164,6 +165,14 @@ func (f *Frame) exec(in ssa.Instruction, at string, st *State) {
 		f.runDefers(x, at, st)
 	case *ssa.Defer:
 		f.deferCall(x, at, st)
+	case *ssa.MakeChan:
+		f.env[x] = f.makeChan(x, at, st)
+	case *ssa.Go:
+		f.goStmt(x, at, st)
+	case *ssa.Select:
+		f.env[x] = f.selectStmt(x, at, st)
+	case *ssa.Send:
+		f.sendStmt(x, at, st)
 	case *ssa.Range:
 		f.env[x] = f.rangeInit(x, at, st)
 	case *ssa.Next:
